@@ -143,6 +143,8 @@ let dispatch cmd r =
       out_lists [regmm ismin f bc; regmm_spec ismin f bc]
   | "close_holes" -> let f = next_arr r in let bc = next_arr r in out_lists [close_holes f bc; close_holes_spec f bc]
   | "hitmiss" -> let f = next_arr r in let t = next_arr r in out_lists [hitmiss f t; hitmiss_spec f t]
+  | "cwatershed" -> let wl = next_int r = 1 in let s = next_arr r in let m = next_arr r in let bc = next_arr r in
+      let (a, b) = cwatershed s m bc wl in let (c, d) = flood_spec s m bc wl in out_lists [a; b; c; d]
   | _ -> failwith ("unknown command " ^ cmd)
 
 let () =
